@@ -6,6 +6,7 @@
 
 use crate::util::{mix, SplitMix};
 use serde::{Deserialize, Serialize};
+use std::sync::atomic::{AtomicUsize, Ordering};
 use std::sync::{Condvar, Mutex};
 use std::time::Duration;
 
@@ -36,6 +37,15 @@ struct St {
     log: Vec<(u8, u64, u8)>,
     gseq: u64,
     stalled: bool,
+    /// kernel thread ids of the callers (for the blocked-holder detector)
+    ktid: Vec<i64>,
+    /// callers whose baton was taken away while they were blocked in the OS
+    blocked: Vec<bool>,
+    /// callers currently inside the scheduler's own condvar wait (or not started)
+    parked: Vec<bool>,
+    /// bumped on every scheduler action (progress indicator for the detector)
+    progress: u64,
+    lock_handovers: u64,
 }
 
 pub struct Sched {
@@ -43,6 +53,8 @@ pub struct Sched {
     cvs: Vec<Condvar>,
     main_cv: Condvar,
     stall_ms: u64,
+    /// lock-free mirror of `cur`, read at every seam event
+    cur_mirror: AtomicUsize,
 }
 
 #[derive(Clone, Debug, Default)]
@@ -52,6 +64,9 @@ pub struct SchedSummary {
     pub digest: u64,
     pub log: Vec<(u8, u64, u8)>,
     pub stalled: bool,
+    /// times the baton was handed on because its holder was blocked on a lock that
+    /// a parked caller holds (the library holding a lock across a seam event)
+    pub lock_handovers: u64,
 }
 
 impl Sched {
@@ -73,31 +88,65 @@ impl Sched {
                 log: Vec::new(),
                 gseq: 0,
                 stalled: false,
+                ktid: vec![0; n],
+                blocked: vec![false; n],
+                parked: vec![true; n],
+                progress: 0,
+                lock_handovers: 0,
             }),
             cvs: (0..n).map(|_| Condvar::new()).collect(),
             main_cv: Condvar::new(),
             stall_ms,
+            cur_mirror: AtomicUsize::new(NOBODY),
         }
+    }
+
+    fn set_cur(&self, st: &mut St, next: usize) {
+        st.cur = next;
+        st.progress += 1;
+        self.cur_mirror.store(next, Ordering::SeqCst);
+    }
+
+    /// lock-free: does `tid` still hold the baton?  (false after a lock hand-over)
+    #[inline]
+    pub fn holds(&self, tid: usize) -> bool {
+        self.cur_mirror.load(Ordering::Relaxed) == tid
+    }
+
+    /// a caller announces its kernel thread id before it first parks
+    pub fn register(&self, tid: usize) {
+        let k = unsafe { libc::syscall(libc::SYS_gettid) } as i64;
+        self.st.lock().unwrap().ktid[tid] = k;
+    }
+
+    /// the caller noticed (at a seam event) that its baton was handed on while it
+    /// was blocked: park until it is its turn again
+    pub fn reacquire(&self, tid: usize) {
+        let mut st = self.st.lock().unwrap();
+        st.blocked[tid] = false;
+        st.progress += 1;
+        let _st = self.park_until_mine(st, tid);
     }
 
     fn choose(st: &mut St, from: usize, may_stay: bool) -> usize {
         let n = st.alive.len();
-        let cands: Vec<usize> = (0..n)
-            .filter(|&i| st.alive[i] && (may_stay || i != from))
-            .collect();
-        if cands.is_empty() {
+        let all: Vec<usize> = (0..n).filter(|&i| st.alive[i] && (may_stay || i != from)).collect();
+        if all.is_empty() {
             return DONE;
         }
+        // a caller known to be blocked in the OS is passed over while anyone else can run
+        let free: Vec<usize> = all.iter().copied().filter(|&i| !st.blocked[i]).collect();
+        let cands = if free.is_empty() { all } else { free };
         match st.kind {
             SchedKind::Uniform => cands[st.rng.below(cands.len() as u64) as usize],
             SchedKind::RoundRobin => {
                 for d in 1..=n {
                     let i = (from.wrapping_add(d)) % n;
-                    if st.alive[i] {
+                    if cands.contains(&i) {
                         return i;
                     }
                 }
-                DONE
+                cands[0]
             }
             SchedKind::Pct => {
                 if from < n && may_stay {
@@ -113,28 +162,58 @@ impl Sched {
     pub fn start(&self) {
         let mut st = self.st.lock().unwrap();
         let first = Self::choose(&mut st, NOBODY, false);
-        st.cur = first;
+        self.set_cur(&mut st, first);
         st.digest = mix(st.digest, first as u64);
         if first != DONE {
             self.cvs[first].notify_one();
         }
     }
 
-    /// main thread: wait until every caller finished; false on stall
+    /// main thread: wait until every caller finished; false on stall.  Doubles as
+    /// the blocked-holder detector: if the baton holder sleeps in the OS (it is
+    /// waiting for a lock a parked caller holds) and nothing moves, the baton is
+    /// handed to another caller chosen by the seeded scheduler; the blocked one parks
+    /// at its next seam event.  The blocking point is a program point, so the
+    /// resulting schedule is still a function of the seed.
     pub fn wait_done(&self) -> bool {
         let mut st = self.st.lock().unwrap();
         let mut waited = 0u64;
+        let mut last_progress = u64::MAX;
+        let mut asleep_polls = 0u32;
         while st.cur != DONE && !st.stalled {
-            let (g, to) = self
-                .main_cv
-                .wait_timeout(st, Duration::from_millis(200))
-                .unwrap();
+            let (g, to) = self.main_cv.wait_timeout(st, Duration::from_millis(5)).unwrap();
             st = g;
-            if to.timed_out() {
-                waited += 200;
-                if waited >= self.stall_ms + 2000 {
-                    st.stalled = true;
+            if !to.timed_out() {
+                continue;
+            }
+            waited += 5;
+            let holder = st.cur;
+            if holder < st.alive.len() {
+                if st.progress == last_progress && !st.parked[holder] && thread_sleeping(st.ktid[holder]) {
+                    asleep_polls += 1;
+                } else {
+                    asleep_polls = 0;
                 }
+                last_progress = st.progress;
+                if asleep_polls >= 4 {
+                    asleep_polls = 0;
+                    st.blocked[holder] = true;
+                    let next = Self::choose(&mut st, holder, false);
+                    if next != DONE && next != holder {
+                        st.lock_handovers += 1;
+                        st.switches += 1;
+                        st.digest = mix(mix(mix(st.digest, holder as u64), 0xb10c), next as u64);
+                        if st.log.len() < 4096 {
+                            st.log.push((holder as u8, u64::MAX, next as u8));
+                        }
+                        self.set_cur(&mut st, next);
+                        self.cvs[next].notify_one();
+                        waited = 0;
+                    }
+                }
+            }
+            if waited >= self.stall_ms + 2000 {
+                st.stalled = true;
             }
         }
         !st.stalled
@@ -146,6 +225,7 @@ impl Sched {
         tid: usize,
     ) -> std::sync::MutexGuard<'a, St> {
         let mut waited = 0u64;
+        st.parked[tid] = true;
         while st.cur != tid {
             let (g, to) = self.cvs[tid]
                 .wait_timeout(st, Duration::from_millis(500))
@@ -164,6 +244,8 @@ impl Sched {
                 }
             }
         }
+        st.parked[tid] = false;
+        st.progress += 1;
         st
     }
 
@@ -182,9 +264,10 @@ impl Sched {
         if st.log.len() < 4096 {
             st.log.push((tid as u8, ev, next as u8));
         }
+        st.progress += 1;
         if next != tid {
             st.switches += 1;
-            st.cur = next;
+            self.set_cur(&mut st, next);
             self.cvs[next].notify_one();
             let _st = self.park_until_mine(st, tid);
         }
@@ -194,9 +277,21 @@ impl Sched {
     pub fn finish(&self, tid: usize) {
         let mut st = self.st.lock().unwrap();
         st.alive[tid] = false;
+        st.blocked[tid] = false;
+        if st.cur != tid {
+            // the baton was handed on while this caller was blocked; it ran to its end
+            // without another seam event: nothing to hand over
+            st.progress += 1;
+            st.digest = mix(st.digest, 0xf1f2 ^ tid as u64);
+            if !st.alive.iter().any(|a| *a) && st.cur >= st.alive.len() {
+                self.set_cur(&mut st, DONE);
+                self.main_cv.notify_all();
+            }
+            return;
+        }
         let next = Self::choose(&mut st, tid, false);
         st.digest = mix(mix(st.digest, 0xf1f1 ^ tid as u64), next as u64);
-        st.cur = next;
+        self.set_cur(&mut st, next);
         if next == DONE {
             self.main_cv.notify_all();
         } else {
@@ -220,7 +315,25 @@ impl Sched {
             digest: st.digest,
             log: st.log.clone(),
             stalled: st.stalled,
+            lock_handovers: st.lock_handovers,
         }
+    }
+}
+
+/// is the kernel thread in interruptible sleep (blocked on a futex / lock)?
+fn thread_sleeping(ktid: i64) -> bool {
+    if ktid <= 0 {
+        return false;
+    }
+    match std::fs::read_to_string(format!("/proc/self/task/{}/stat", ktid)) {
+        Ok(s) => {
+            // pid (comm) state ...: the state letter follows the closing parenthesis
+            match s.rfind(')') {
+                Some(i) => s[i + 1..].trim_start().starts_with('S'),
+                None => false,
+            }
+        }
+        Err(_) => false,
     }
 }
 
